@@ -54,6 +54,11 @@ fn main() {
         std::process::exit(2);
     }
     silence_panics();
+    if args[1] == "zones" {
+        // the zone ids of the bundled tz database
+        println!("{}", serde_json::json!(chrono_tz::TZ_VARIANTS.iter().map(|z| z.name()).collect::<Vec<_>>()));
+        return;
+    }
     if args[1] == "worker" {
         worker::worker_main(ops_total::worker_handle);
         return;
